@@ -25,7 +25,7 @@ HasEmptyAny(f) ==
 AnyEmptyAny(fs, j) == j <= Len(fs) /\ (HasEmptyAny(fs[j]) \/ AnyEmptyAny(fs, j + 1))
 
 Str(e) ==
-    LET p == ParseStrict(e.text) IN
+    \E p \in {ParseStrict(e.text)} :   \* bound once (a LET in an action is re-evaluated at every reference)
     /\ Check(p.ok, "C13", "TextIsRfc4515")
     /\ (p.ok => Check(p.tree = e.tree, "C13", "TextDenotesTree"))
     /\ Check(e.backres = "ok", "C13", "ParsesBack")
@@ -33,7 +33,7 @@ Str(e) ==
 
 Max2(a, b) == IF a > b THEN a ELSE b
 Parse_(e) ==
-    LET p == IF e.deep THEN [ok |-> FALSE] ELSE ParseDecorated(e.text) IN
+    \E p \in {IF e.deep THEN [ok |-> FALSE] ELSE ParseDecorated(e.text)} :
     /\ Check(e.res \in {"ok", "FilterSyntaxError"}, "C15", "Total")
     /\ (e.res = "FilterSyntaxError" =>
           Check(e.off >= 0 /\ e.len >= 0 /\ e.off + e.len <= Max2(e.nchars, e.nbytes), "C15", "ErrorSpan"))
